@@ -67,6 +67,21 @@ CLAIMS = {
         "stream set of original and image must stand in the proved relation exactly.",
    technique="Lean 4 proof of invariance of the target specification (uniqueness + algebra of the heat-deficit function) + metamorphic testing of the service + model tie",
    design="§6 C12"),
+ "C13": dict(
+   text="Partial proof (Lean 4) about the code-shaped model of the run segmentation of a grand-composite series "
+        "(_segment_bounds, _iter_gcc_segment_slices, _classify_segment), for series of any length: bounds_ordered (the non-flat "
+        "extent is a proper range, flat series included), runs_tile (the emitted runs tile the extent exactly: consecutive runs "
+        "share their end point, none is empty, first/last at the bounds - so the emitted points of a series are exactly the "
+        "cleaned points of its non-flat extent), runs_homogeneous (every step of a run has the run's class: classification follows "
+        "the sign of the enthalpy change / vertical within GCC_VERTICAL_TOL), runs_maximal; with C17.clean_sublist this is the "
+        "structural half of the property. Constants (tolerances, display decimals) regenerated from the live module. NOT proved: "
+        "that emitted points lie on the table column to display rounding and reproduce every row (it rests on clean_composite_curve, "
+        "whose 1e-6 clause is false: C17 finding), extents = Qh/Qc/duties, one graph set per record with the documented types. "
+        "Decided by the oracle: the service on 150+ random problems per run x graph options; 6000+ emitted curves compared both "
+        "ways with their source column (window-range test for display rounding), segment colours vs sign, GCC ends and composite "
+        "spans, graph-set keys and types. Correspondence: bounds and runs on 1500+ random columns.",
+   technique="Lean 4 proof (induction over the code-shaped segmentation loops, partial) + correspondence testing + two-way curve/column oracle on service output",
+   design="§6 C13"),
  "C17": dict(
    text="Partial proof (Lean 4) about the code-shaped model of _rdp (stack ranges as a recursion with fuel = number of points, "
         "first-maximum scan with strict >, zero-length chord `continue`) for polylines of ANY length and ANY tolerance: rdp_ends "
